@@ -231,9 +231,11 @@ def confusables(p, draw):
 
 
 def shards(tier):
-    n = 16
-    if tier == "thorough":
-        return [{"kind": "fuzz", "runs": 250000} for _ in range(4)] + [{"kind": "codec" if i % 2 == 0 else "file", "n": (4000 if i % 2 == 0 else 150) if tier == "quick" else (60000 if i % 2 == 0 else 3000)} for i in range(n)]
+    quick = tier == "quick"
+    base = [{"kind": "codec" if i % 2 == 0 else "file", "n": (4000 if quick else 60000) if i % 2 == 0 else (150 if quick else 3000)} for i in range(16)]
+    if quick:
+        return base
+    return [{"kind": "fuzz", "runs": 250000} for _ in range(4)] + base
 
 
 def run_shard(spec, ctx):
